@@ -445,6 +445,15 @@ func (x *Unit) builtin(st *State, pc *preparedCall) []Term {
 		}
 		ref.GoT = types.NewPointer(t)
 		return []Term{ref}
+	case "close":
+		// close(ch): a trace event "chan.close" carrying the channel. Closing a nil channel panics (checked); closing a channel
+		// twice panics as well, which is NOT tracked here (the contracts count the close events instead).
+		ch := x.eval(st, e.Args[0])
+		if x.safetyOn() {
+			x.oblige(st, "safety", x.safetyLabel("close-nil-chan"), x.safetyTags(), Not(Eq(ch, T("0", SInt))), "closed channel is non-nil", e)
+		}
+		x.traceEvent(st, "chan.close", []Term{ch}, nil)
+		return nil
 	case "delete":
 		mt := x.typeOf(e.Args[0]).Underlying().(*types.Map)
 		m := x.eval(st, e.Args[0])
